@@ -958,6 +958,17 @@ func (env *SpecEnv) call(x *ECall) SVal {
 		}
 		ap := ex.varOf(env.old, "allocptr", SInt)
 		return env.boolVal(and(app(SBool, "(_ is obj)", ref), app(SBool, ">=", app(SInt, "oid", ref), ap)))
+	case "upper":
+		v := env.eval(x.Args[0])
+		sc, ok := v.V.(Sc)
+		if !ok {
+			return env.fail("upper of non-string")
+		}
+		if ex.cx.strMode {
+			return SVal{V: Sc{app(SStr, "str.to_upper", sc.T)}, T: types.Typ[types.String]}
+		}
+		ex.cx.declFun("str$upper", []string{SInt}, SInt)
+		return SVal{V: Sc{app(SInt, "str$upper", sc.T)}, T: types.Typ[types.String]}
 	case "samearray":
 		a, b := env.eval(x.Args[0]), env.eval(x.Args[1])
 		as, aok := a.V.(Sc)
@@ -1032,6 +1043,40 @@ func (env *SpecEnv) litOfType(n *big.Int, t types.Type) Term {
 }
 
 func (env *SpecEnv) applySpec(sf *SpecFunc, recv *SVal, args []Expr) SVal {
+	if sf.Uninterp {
+		ex := env.ex
+		var ts []Term
+		var sorts []string
+		for i, a := range args {
+			v := env.eval(a)
+			if v.Lit != nil {
+				if t, ok := castTypes[sf.PTypes[i]]; ok {
+					v = SVal{V: Sc{env.litOfType(v.Lit, t)}, T: t}
+				} else {
+					v = SVal{V: Sc{bigLit(v.Lit)}}
+				}
+			}
+			sc, ok := v.V.(Sc)
+			if !ok {
+				return env.fail("uninterpreted %s: non-scalar argument", sf.Name)
+			}
+			ts = append(ts, sc.T)
+			sorts = append(sorts, sc.T.Sort)
+		}
+		var rs string
+		var rt types.Type
+		switch sf.RetType {
+		case "string":
+			rs, rt = ex.cx.strSort(), types.Typ[types.String]
+		case "bool":
+			rs, rt = SBool, types.Typ[types.Bool]
+		default:
+			rs, rt = ex.cx.intS(), types.Typ[types.Int]
+		}
+		name := "spec$" + sf.Name
+		ex.cx.declFun(name, sorts, rs)
+		return SVal{V: Sc{app(rs, name, ts...)}, T: rt}
+	}
 	if env.depth > 20 {
 		return env.fail("spec recursion too deep in %s", sf.Name)
 	}
